@@ -97,3 +97,26 @@ def cover_walks(init, g, select, max_walk=150):
             raise ToolError("uncoverable edges: %r" % sorted(todo)[:5])
         walks.append(walk)
     return walks
+
+
+def node_paths(init, g):
+    """shortest op path from the initial node to every node of the projected graph"""
+    import collections
+    prev = {init: None}
+    dq = collections.deque([init])
+    while dq:
+        u = dq.popleft()
+        for e in sorted(g.get(u, {})):
+            v = g[u][e]
+            if v not in prev:
+                prev[v] = (u, e)
+                dq.append(v)
+    paths = {}
+    for node in prev:
+        out, cur = [], node
+        while prev[cur] is not None:
+            u, e = prev[cur]
+            out.append(e)
+            cur = u
+        paths[node] = list(reversed(out))
+    return paths
